@@ -348,6 +348,7 @@ class World:
                     return fn(*args, **kwargs)
                 return functools.wraps(fn)(inner) if wraps else inner
             return deco
+        chains = {}
         for f in sc['funs']:
             ns = {'__w': self, '__name': f['name']}
             st = self.sig_text(f['sig'], ns)
@@ -360,7 +361,14 @@ class World:
                 if b[0] == 'use': fn = decs[b[1]](fn)
                 elif b[0] == 'wraps': fn = foreign(b[1], True)(fn)
                 elif b[0] == 'plain': fn = foreign(b[1], False)(fn)
-                elif b[0] == 'chain': fn = deal.chain(*[decs[c] for c in b[1]])(fn)
+                elif b[0] == 'chain':
+                    key = b[2] if len(b) > 2 else None
+                    if key is None or key not in chains:
+                        ch = deal.chain(*[decs[c] for c in b[1]])
+                        if key is not None: chains[key] = ch
+                    else:
+                        ch = chains[key]
+                    fn = ch(fn)
                 else: raise ValueError(b)
             self.funcs[f['name']] = fn
 
